@@ -105,8 +105,7 @@ def pda_to_push_pop_in_place(P: PDA) -> None:
     pda_to_one_accepting_state_in_place(P)
 
     # add intermediate states to enforce push/pop transitions
-    dummy = Symbol('∅')
-    assert dummy not in Gamma # TODO: implement a robust solution
+    dummy = fresh_symbol(Gamma, '∅⊥⊤⊗⊕')
     Gamma.add(dummy)
     delta1 = defaultdict(lambda: set([]))
     for (p, a, u), Q1 in delta.items():
